@@ -64,6 +64,23 @@ def vector4to3 [Zero K] [Add K] [Mul K] [Neg K] [NatCast K] [LT K] [DecidableLT 
     .ok ⟨((2 : Nat) : K) * q.a + q.b, ((2 : Nat) : K) * q.b + q.a, q.d⟩
   else .error .value
 
+/-- the guard on an ARRAY of index sets: `np.allclose(indices[..., :3].sum(axis=-1), 0.0)` is one test for the
+    whole array, true iff every row's own sum is within `atol`. -/
+def guardAll [Zero K] [Add K] [Neg K] [LT K] [DecidableLT K] [LE K] [DecidableLE K]
+    (atol : K) (rows : List (V4 K)) : Bool := rows.all fun q => sumIsZero atol (q.a + q.b + q.c)
+
+/-- `plane4to3` on an array of index sets (leading shape flattened): rejected as a whole unless every row passes. -/
+def plane4to3Arr [Zero K] [Add K] [Neg K] [LT K] [DecidableLT K] [LE K] [DecidableLE K]
+    (atol : K) (rows : List (V4 K)) : Except Err (List (V3 K)) :=
+  if guardAll atol rows then .ok (rows.map fun q => ⟨q.a, q.b, q.d⟩) else .error .value
+
+/-- `vector4to3` on an array of index sets. -/
+def vector4to3Arr [Zero K] [Add K] [Mul K] [Neg K] [NatCast K] [LT K] [DecidableLT K] [LE K] [DecidableLE K]
+    (atol : K) (rows : List (V4 K)) : Except Err (List (V3 K)) :=
+  if guardAll atol rows then
+    .ok (rows.map fun q => ⟨((2 : Nat) : K) * q.a + q.b, ((2 : Nat) : K) * q.b + q.a, q.d⟩)
+  else .error .value
+
 /-- `vector_crystal_to_cartesian(indices, box)`: 4 indices need a hexagonal box and go through
     `vector4to3`; then `indices.dot(box.vects)`. `isHex` is `box.ishexagonal()`. -/
 def vectorCrystalToCartesian [Zero K] [Add K] [Mul K] [Neg K] [NatCast K] [LT K] [DecidableLT K]
